@@ -17,7 +17,7 @@ git apply $SRC/patch.diff 2>/tmp/sv/$NAME.apply.err && APPLY=yes || APPLY=no
 BUILD=no; SUITE=no; DEMOFAIL=no
 if [ $APPLY = yes ]; then
   go build ./... 2>/dev/null && BUILD=yes
-  S=$(go test -vet=off -count=1 -timeout 25m ./... 2>&1 | grep -E "^(FAIL|--- FAIL|panic)" | head -5)
+  S=$(go test -vet=off -count=1 -timeout 25m ./... 2>&1 | grep -E "^(--- FAIL|panic|FAIL.*(build|setup) failed)" | grep -v "TestEdgeNeighbor" | head -5)   # TestEdgeNeighbor is flaky on the unmodified tree (1 run in 25)
   [ -z "$S" ] && SUITE=yes
   cp $SRC/demo_test.go $DEMO
   R2=$(go test -vet=off -count=1 -timeout 300s -run "^($RUN)\$" ./$DEST/ 2>&1 | tail -40)
